@@ -152,7 +152,8 @@ Inductive c19_case :=
     (* a document in the c-channel layout whose data field is the base64 of `data` *)
 | CFace (f : face) (printed : str) (reparsed : fres) (ser : json) (back : fres)
     (* Display, FromStr of it, to_value, from_value *)
-| CFaceParse (s : str) (tbl : list (str * option rgba)) (impl : fres)
+| CFaceParse (s : str) (tbl : list (str * option rgba)) (impl : fres) (printed : str) (reparsed : fres)
+    (* Face::from_str of an arbitrary string; when it is accepted: Display of the result and FromStr of that *)
 | CSize (h w : N) (ser : json) (back : sres)
 | CSizeDe (doc : json) (impl : sres)
 | CChord (ks : list key) (tbl : list (str * str)) (printed : str) (ser : json) (back : cres)
@@ -184,8 +185,19 @@ Definition c19_check (c : c19_case) : bool * bool :=
        && json_eqb ser (face_ser f)
        && fres_eqb (face_de (fun _ => None) ser) back,
        fres_eqb reparsed (FOk f) && fres_eqb back (FOk f))
-  | CFaceParse s tbl impl =>
-      (fres_eqb (fres_of (face_parse (table_rgba tbl) s)) impl, negb (fres_eqb impl FPanic))
+  | CFaceParse s tbl impl printed reparsed =>
+      (fres_eqb (fres_of (face_parse (table_rgba tbl) s)) impl
+       && match impl with
+          | FOk f => str_eqb (face_print f) printed
+                     && fres_eqb (fres_of (face_parse (table_rgba tbl) printed)) reparsed
+          | _ => true
+          end,
+       (* never a panic, and a face the parser produced prints to text that parses back to the same face *)
+       negb (fres_eqb impl FPanic)
+       && match impl with
+          | FOk f => fres_eqb reparsed (FOk f)
+          | _ => true
+          end)
   | CSize h w ser back =>
       (json_eqb (ser_size (h, w)) ser && sres_eqb (sres_of (de_size ser)) back,
        sres_eqb back (SOk h w))
